@@ -42,9 +42,11 @@ Pow2   == <<1, 2, 4, 8, 16, 32, 64, 128>>
 
 ZNat(n) == [i \in 1..8 |-> IF i <= 4 THEN (n \div Pow256[i]) % 256 ELSE 0]        \* 0 <= n < 2^31
 
+Idx8 == <<1, 2, 3, 4, 5, 6, 7, 8>>
+\* (limb-by-limb loops are written as folds: TLC runs FoldLeft iteratively, with evaluated accumulators)
 ZAddC(a, b, cin) ==
-  LET c[i \in 0..8] == IF i = 0 THEN cin ELSE (a[i] + b[i] + c[i-1]) \div 256
-  IN  [i \in 1..8 |-> (a[i] + b[i] + c[i-1]) % 256]
+  FoldLeft(LAMBDA st, i : LET t == a[i] + b[i] + st.c IN [z |-> Append(st.z, t % 256), c |-> t \div 256],
+           [z |-> <<>>, c |-> cin], Idx8).z
 ZNot(a)    == [i \in 1..8 |-> 255 - a[i]]
 ZAdd(a, b) == ZAddC(a, b, 0)
 ZSub(a, b) == ZAddC(a, ZNot(b), 1)
@@ -52,9 +54,9 @@ ZNeg(a)    == ZAddC(ZNot(a), Z0, 1)
 ZInt(n)    == IF n >= 0 THEN ZNat(n) ELSE ZNeg(ZNat(0 - n))                         \* |n| < 2^31
 
 ZMul(a, b) ==                                                                     \* low 64 bits of the product
-  LET col(k) == LET s[i \in 0..k] == IF i = 0 THEN 0 ELSE s[i-1] + a[i] * b[k+1-i] IN s[k]
-      t[k \in 0..8] == IF k = 0 THEN 0 ELSE col(k) + (t[k-1] \div 256)
-  IN  [k \in 1..8 |-> t[k] % 256]
+  FoldLeft(LAMBDA st, k : LET t == FoldLeft(LAMBDA acc, i : acc + a[i] * b[k + 1 - i], st.c, SubSeq(Idx8, 1, k))
+                          IN  [z |-> Append(st.z, t % 256), c |-> t \div 256],
+           [z |-> <<>>, c |-> 0], Idx8).z
 
 ZLtU(a, b) == \E i \in 1..8 : a[i] < b[i] /\ \A j \in (i+1)..8 : a[j] = b[j]       \* unsigned <
 ZNegS(a)   == a[8] >= 128                                                          \* negative as a signed 64-bit number
@@ -75,13 +77,15 @@ NatOfZ(z)  == z[1] + 256 * z[2] + 65536 * z[3] + 16777216 * z[4]                
 
 \* unsigned division by a small divisor 0 < d <= 2^23 (limb by limb from the top)
 ZDivSmall(a, d) ==
-  LET r[i \in 1..9] == IF i = 9 THEN 0 ELSE (r[i+1] * 256 + a[i]) % d
-  IN  [q |-> [i \in 1..8 |-> (r[i+1] * 256 + a[i]) \div d], r |-> ZNat(r[1])]
+  LET st == FoldLeft(LAMBDA acc, i : LET t == acc.r * 256 + a[9 - i] IN [q |-> <<t \div d>> \o acc.q, r |-> t % d],
+                     [q |-> <<>>, r |-> 0], Idx8)
+  IN  [q |-> st.q, r |-> ZNat(st.r)]
 
 ZBit(a, i)    == (a[(i \div 8) + 1] \div Pow2[(i % 8) + 1]) % 2                      \* i in 0..63
 ZSetBit(a, i) == [a EXCEPT ![(i \div 8) + 1] = @ + Pow2[(i % 8) + 1]]
-ZShl1(a, bit) == LET c[i \in 0..8] == IF i = 0 THEN bit ELSE (2 * a[i] + c[i-1]) \div 256
-                 IN  [z |-> [i \in 1..8 |-> (2 * a[i] + c[i-1]) % 256], c |-> c[8]]
+ZShl1(a, bit) == LET st == FoldLeft(LAMBDA acc, i : LET t == 2 * a[i] + acc.c IN [z |-> Append(acc.z, t % 256), c |-> t \div 256],
+                                    [z |-> <<>>, c |-> bit], Idx8)
+                 IN  [z |-> st.z, c |-> st.c]
 BitsDown == [j \in 1..64 |-> 64 - j]
 ZDivStep(a, d, st, i) ==                                                          \* restoring division, one bit
   LET s  == ZShl1(st.r, ZBit(a, i))
